@@ -385,15 +385,71 @@ fn cases_for<P: G>(tier: Tier) -> Vec<Box<dyn Case>> {
     cases
 }
 
+/// Honest proofs submitted together beyond the chunk limit: 257 / 513 members, one of them an aggregate of two (first, second,
+/// at 255 / 256, last), capacities equal to or above the aggregate. Every honest proof verifies in such a batch too.
+fn long_honest_batch_case<P: G>(len: usize, big_at: usize, spare_capacity: bool) -> Box<dyn Case> {
+    case(format!("{}/long-honest-batch/len={},aggregate-of-two-at={},spare-capacity={}", P::NAME, len, big_at, spare_capacity), move |_v| {
+        fg::clear_intern();
+        let mut res = CaseResult::new("accept");
+        let cap = if spare_capacity { 4 } else { 1 };
+        let mut sts = Vec::new();
+        let mut proofs = Vec::new();
+        let mut ctxs = Vec::new();
+        for pos in 0..len {
+            let cfg = if pos == big_at { Cfg::new(2, 2, 2 * cap, 1) } else { Cfg::new(2, 1, cap, 1) };
+            let mut wit = Wit::default_for(&cfg);
+            wit.values[0] = (pos % 4) as u64;
+            if cfg.m == 1 && pos % 5 == 0 {
+                wit.seed = Some(seed_scalar(pos as u64));
+            }
+            let built = build_cached::<P>(&cfg, &wit).honest();
+            let ctx = contexts()[pos % 6];
+            match catch(|| lib_prove(&built, &ctx, &mut HRng::chacha(pos as u64))) {
+                Ok(Ok(p)) => proofs.push(p),
+                other => {
+                    res.outcome = "prover-failed".into();
+                    res.violate("prove", format!("honest prove failed for member {}: {:?}", pos, other.map(|r| r.map(|_| ()).map_err(|e| crate::api::err_name(&e)))));
+                    return res;
+                },
+            }
+            sts.push(built.statement.clone());
+            ctxs.push(ctx);
+        }
+        for mode in MODES {
+            let mut ts: Vec<merlin::Transcript> = ctxs.iter().map(|c| c.transcript()).collect();
+            let obs = verify_observed(&sts, &proofs, &mut ts, mode);
+            res.executions += 1;
+            res.validated += 1;
+            res.transitions += 1;
+            if !obs.is_ok() {
+                res.outcome = "reject".into();
+                res.violate(mode_name(mode), format!("a batch of {} honest proofs (an aggregate of two at position {}) is not accepted in {}: {}", len, big_at, mode_name(mode), obs.describe()));
+            }
+        }
+        res
+    })
+}
+
 pub fn run(rep: &mut Report) {
     rep.rule = "configuration lattice x {default witness; every single deviation of one value over W(n), one promise over \
                 the valid alphabet, one blinding component over {0,1,l-1}, identity commitment, seed presence, transcript \
                 context, RNG model}; full value x promise product when bits*aggregation <= 4; each case = prove + verify in 3 \
-                modes + reference verifier + (F) prover binding; a case is distinct by its canonical key (all choices)"
+                modes + reference verifier + (F) prover binding; a case is distinct by its canonical key (all choices); honest batches of 257 / 513 members holding one aggregate of two at the first, second, chunk-boundary and last positions, with and without spare capacity"
         .into();
     rep.assume("values above 4 bits: boundary alphabet {0,1,2^(n-1)-1,2^(n-1),2^n-2,2^n-1}, not all 2^n values");
     rep.assume("reference model R (mc/src/refbp.rs) is the protocol of the paper / RFC-0181; it is bound to the code on every case");
     rep.explore("C01", cases_for::<F>(rep.tier));
     rep.explore("C01", cases_for::<RistrettoPoint>(rep.tier));
+    let mut long: Vec<Box<dyn Case>> = Vec::new();
+    for (len, big_at) in [(257usize, 0usize), (257, 1), (257, 255), (257, 256), (513, 0), (513, 512), (513, 300)] {
+        for spare in [false, true] {
+            if len == 513 && spare && !rep.tier.thorough() {
+                continue;
+            }
+            long.push(long_honest_batch_case::<F>(len, big_at, spare));
+            long.push(long_honest_batch_case::<RistrettoPoint>(len, big_at, spare));
+        }
+    }
+    rep.explore("C01", long);
     rep.expect_outcome("accept");
 }
